@@ -82,7 +82,7 @@ def gen_upper_case(rng: random.Random):
         reactions.append((r, p))
     used = {x for r, p in reactions for x in r + p}
     return {"reactions": reactions, "required": [x for x in names if x not in used][: rng.randint(0, 2)], "incremental": rng.random() < 0.5,
-            "upper": True, "replacement": repl}
+            "upper": True, "replacement": repl, "preceded": rng.random() < 0.5, "late_required": rng.random() < 0.5}
 
 
 def gen_case(rng: random.Random):
@@ -102,7 +102,7 @@ def gen_case(rng: random.Random):
         required = required + [required[0]]                 # a species asked for twice is still one species
     if not espell and rng.random() < 0.3:
         required = required + rng.sample(sorted(ELECTRON), 2)   # ... also under two spellings, and taking part in no reaction
-    return {"reactions": reactions, "required": required, "incremental": rng.random() < 0.5}
+    return {"reactions": reactions, "required": required, "incremental": rng.random() < 0.5, "late_required": rng.random() < 0.5}
 
 
 def build(case):
@@ -113,6 +113,13 @@ def build(case):
     mk = lambda r, p: Reaction(list(r), list(p), alpha=1e-10, reaction_type=ReactionType.GAS_TWOBODY)
     Species.reset()
     kw = {}
+    if case.get("preceded"):
+        # a network in the OTHER naming convention is built and its identifiers are read first, in the same process and with no reset in
+        # between (a script that prepares two projects): nothing derived from its element lists may survive into this one
+        with quiet():
+            _n0 = Network([mk(["H", "H"], ["H2"]), mk(["He+", "e-"], ["He"])], elements=list(Species.default_elements),
+                          pseudo_elements=list(Species.default_pseudoelements))
+            _ = [(x.alias, x.basename, x.charge) for x in _n0.species], _n0.elements
     if case.get("upper"):
         kw = {"elements": list(UPPER_ELEMENTS), "pseudo_elements": list(UPPER_PSEUDO)}
         Species.set_known_elements(list(UPPER_ELEMENTS))
@@ -129,11 +136,17 @@ def build(case):
         Species.set_known_pseudoelements(list(kw["pseudo_elements"]))
     if not case["incremental"]:
         return Network([mk(r, p) for r, p in case["reactions"]], required_species=case["required"], **kw)
-    net = Network(required_species=case["required"], **kw)
+    late = bool(case.get("late_required"))
+    net = Network(**kw) if late else Network(required_species=case["required"], **kw)
     for k, (r, p) in enumerate(case["reactions"]):
         net.add_reaction(mk(r, p))
         if k % 2 == 0:
             _ = [s.name for s in net.species], net.elements     # intermediate reads, as a notebook user would do
+    if late:
+        # the required species are declared AFTER the reactions were added and the species were read (a notebook user who finds out
+        # that a cooling process needs one more species): the network is the one the constructor would have made
+        _ = [s.name for s in net.species], net.elements
+        net.required_species = list(case["required"])
     return net
 
 
